@@ -97,6 +97,55 @@ def model_bad(srcs_cfgs):
     return out
 
 
+def py_binders(tree):
+    """names bound anywhere inside an expression tree, CPython's view: walrus targets, lambda parameters,
+    comprehension target names (the reference for the Lean function `bnd`)"""
+    out = set()
+    for n in ast.walk(tree):
+        if isinstance(n, ast.NamedExpr):
+            out.add(n.target.id)
+        elif isinstance(n, ast.Lambda):
+            a = n.args
+            for x in a.posonlyargs + a.args + a.kwonlyargs + ([a.vararg] if a.vararg else []) + ([a.kwarg] if a.kwarg else []):
+                out.add(x.arg)
+        elif isinstance(n, ast.comprehension):
+            for m in ast.walk(n.target):
+                if isinstance(m, ast.Name) and isinstance(m.ctx, ast.Store):
+                    out.add(m.id)
+    return out
+
+
+def binder_check(ol, srcs_cfgs):
+    """K for `bnd` and the statement of C09.no_foreign_binders on the real converter: yields
+    (src, cfg, ok, detail) - the non-reserved names bound by the real output equal those the Lean `bnd` lists for
+    the model's output, and each is a name the script binds or an audited helper name"""
+    srcs_cfgs = [(s, c) for s, c in srcs_cfgs if analysable(s)]
+    audited = {"_", "__", "self", "it", "__class__", "itertools", "importlib"}
+    for (src, cfg), r in zip(srcs_cfgs, leandrv.run_batch(model_requests(srcs_cfgs))):
+        real = real_convert(ol, src, cfg)
+        if real[0] != "ok" or "bnd" not in r:
+            continue
+        rb = {x for x in py_binders(real[1]) if not x.startswith("__ol_")}
+        mb = {x for x in r["bnd"] if not x.startswith("__ol_")}
+        if rb != mb:
+            yield src, cfg, False, f"binders differ: real {sorted(rb)} model {sorted(mb)}"; continue
+        user = set()
+        for n in ast.walk(ast.parse(src)):
+            if isinstance(n, ast.Name) and isinstance(n.ctx, ast.Store):
+                user.add(n.id)
+            elif isinstance(n, (ast.FunctionDef, ast.ClassDef)):
+                user.add(n.name)
+            elif isinstance(n, ast.arg):
+                user.add(n.arg)
+            elif isinstance(n, ast.alias):
+                user.add(n.asname or n.name.split(".")[0])
+                user.add(n.asname or n.name)
+        foreign = rb - user - audited
+        if foreign:
+            yield src, cfg, False, f"the converted program binds names the script does not bind: {sorted(foreign)}"; continue
+        yield src, cfg, True, "ok"
+
+
 def owns(sym):
     """the code's ownership test (`ownsName` / SymInfo.owns) on a real symtable.Symbol"""
     return (not sym.is_nonlocal()) and (sym.is_assigned() or sym.is_imported() or (sym.is_parameter() and not sym.is_global()))
